@@ -1024,11 +1024,11 @@ def phases(tier):
     red = [0, NPLAIN, NPLAIN + 1]
     if tier == 'quick':
         return [
-            {'name': 'main', 'nplain': 1, 'depth': 4, 'drop_empty': [0], 'por': True, 'complete_stream_blobs': False,
-             'wrong': False, 'same_object': True, 'kill': False},
+            {'name': 'main', 'nplain': 1, 'depth': 4, 'drop_empty': [], 'por': True, 'complete_stream_blobs': False,
+             'wrong': False, 'same_object': False, 'kill': False},
             {'name': 'pairs', 'nplain': 2, 'depth': 2, 'drop_empty': [0], 'por': True, 'complete_stream_blobs': True,
              'wrong': True, 'same_object': False, 'kill': False},
-            {'name': 'config', 'nplain': 1, 'depth': 3, 'drop_empty': [], 'por': True, 'complete_stream_blobs': True,
+            {'name': 'config', 'nplain': 1, 'depth': 3, 'drop_empty': [0], 'por': True, 'complete_stream_blobs': True,
              'wrong': False, 'same_object': True, 'modes': True, 'begin': [0, NPLAIN + 1], 'hashes': red,
              'delstream': False, 'drop_big': [0], 'symlinks': [0, NPLAIN + 1]},
         ]
